@@ -1,7 +1,7 @@
 //@unit C01_advance
 //@props C01
 //@safetyprops C10 C14
-//@desc ClipperBase::UpdateEdgeIntoAEL - how an edge moves on to its next segment at a vertex (loop-free; NextVertex, IsHorizontal, IsJoined, IsOpen are the real bodies; SetDx, Split, TrimHorz, InsertScanline, CheckJoinLeft/Right are logging stubs): the new bottom is the old top, the new top is the NEXT vertex in the edge's winding direction (wind_dx > 0: ->next, else ->prev), curr_x restarts at the new bottom, the slope is recomputed AFTER both end points are in place; a joined edge is split at the new bottom first; a horizontal segment schedules nothing (closed paths: TrimHorz with preserve_collinear_), every other segment gets a scanline AT ITS TOP (so the sweep stops at every vertex) and is checked for joins on both sides at its bottom. DoTopOfScanbeam - BOUNDED (AEL of 0..3 edges; DoMaxima, AddOutPt, UpdateEdgeIntoAEL, TopX are stubs, IsMaxima / IsHotEdge / PushHorz real): every edge is handled exactly once - one that continues through the scanline gets curr_x = TopX(e, y); one that ends there gets curr_x = its top x and then either DoMaxima (local maximum) or, after adding its top vertex to its contour if it is hot, moves on to its next segment; exactly the edges whose new segment is horizontal are stacked for later, and the stack starts empty.
+//@desc ClipperBase::UpdateEdgeIntoAEL - how an edge moves on to its next segment at a vertex (loop-free; NextVertex, IsHorizontal, IsJoined, IsOpen are the real bodies; SetDx, Split, TrimHorz, InsertScanline, CheckJoinLeft/Right are logging stubs): the new bottom is the old top, the new top is the NEXT vertex in the edge's winding direction (wind_dx > 0: ->next, else ->prev), curr_x restarts at the new bottom, the slope is recomputed AFTER both end points are in place; a joined edge is split at the new bottom first; a horizontal segment schedules nothing (closed paths: TrimHorz with preserve_collinear_), every other segment gets a scanline AT ITS TOP (so the sweep stops at every vertex) and is checked for joins on both sides at its bottom. DoTopOfScanbeam - BOUNDED (AEL of 0..2 edges, 3 in the thorough tier; DoMaxima, AddOutPt, UpdateEdgeIntoAEL, TopX are stubs, IsMaxima / IsHotEdge / PushHorz real): every edge is handled exactly once - one that continues through the scanline gets curr_x = TopX(e, y); one that ends there gets curr_x = its top x and then either DoMaxima (local maximum) or, after adding its top vertex to its contour if it is hot, moves on to its next segment; exactly the edges whose new segment is horizontal are stacked for later, and the stack starts empty.
 #include "vf.h"
 //@include engine_types.inc
 unsigned nondet_uint(void); bool nondet_bool(void); int64_t nondet_i64(void);
@@ -50,6 +50,9 @@ void h_Update(void)
 #endif
 /* ================= DoTopOfScanbeam ================= */
 #ifdef TOPSB
+#ifndef NE
+#define NE 2
+#endif
 Active g_e[3]; Vertex g_vt[3]; int g_max_n[3], g_add_n[3], g_upd_n[3], g_topx_n[3]; int g_seq; int g_add_seq[3], g_upd_seq[3]; Point64 g_add_pt[3]; int64_t g_topx_ret[3]; int64_t g_topx_y[3]; bool g_becomes_horz[3];
 static int eidx(const Active* e) { for (int i = 0; i < 3; ++i) if (e == &g_e[i]) return i; return -1; }
 static Active* DoMaxima__p(ClipperBase* s, Active* e) { int k = eidx(e); g_max_n[k]++; return e->next_in_ael; }
@@ -77,7 +80,7 @@ static int64_t TopX__p(const Active* e, int64_t y) { int k = eidx(e); g_topx_n[k
 //@end
 void h_Top(void)
 {
-  ClipperBase cb; OutRec orec; unsigned n = nondet_uint(); __CPROVER_assume(n <= 3); int64_t y = nondet_i64(); __CPROVER_assume(y > -((int64_t)1 << 61) && y < ((int64_t)1 << 61));
+  ClipperBase cb; OutRec orec; unsigned n = nondet_uint(); __CPROVER_assume(n <= NE); int64_t y = nondet_i64(); __CPROVER_assume(y > -((int64_t)1 << 61) && y < ((int64_t)1 << 61));
   bool attop[3], ismax[3], hot[3]; Point64 top0[3];
   for (unsigned i = 0; i < 3; ++i) {
     g_e[i].prev_in_ael = (i > 0 && i < n) ? &g_e[i - 1] : NULL; g_e[i].next_in_ael = (i + 1 < n) ? &g_e[i + 1] : NULL; g_e[i].next_in_sel = NULL;
@@ -105,4 +108,5 @@ void h_Top(void)
 #endif
 //@run name=UpdateEdgeIntoAEL entry=h_Update unwind=5 flags="--bounds-check --pointer-check" solver=cadical timeout=120
 //@assume A5 (C01_advance): SetDx, Split, TrimHorz, InsertScanline, CheckJoinLeft, CheckJoinRight are logging stubs in the UpdateEdgeIntoAEL harness.
-//@run name=DoTopOfScanbeam entry=h_Top defs=TOPSB unwind=6 flags="--bounds-check --pointer-check --signed-overflow-check" solver=cadical timeout=300 bounded="active edge list of 0..3 edges (DoMaxima returns the next edge; it does not unlink in this harness)"
+//@run name=DoTopOfScanbeam.ael2 entry=h_Top defs=TOPSB,NE=2 unwind=6 flags="--bounds-check --pointer-check --signed-overflow-check" solver=cadical timeout=600 bounded="active edge list of 0..2 edges (DoMaxima returns the next edge; it does not unlink in this harness)"
+//@run name=DoTopOfScanbeam.ael3 tier=thorough entry=h_Top defs=TOPSB,NE=3 unwind=6 flags="--bounds-check --pointer-check --signed-overflow-check" solver=cadical timeout=900 bounded="active edge list of 0..3 edges"
